@@ -230,6 +230,10 @@ class SpecMixin:
             return [Res(st, V(Val.PathV(p_joinp(vp(x.t), vp(y.t))), "Path"))]
         if f == "parses_int":
             return B(is_intstr(vs(v(a[0]).t)))
+        if f == "no_effect_here":   # no direct occurrence (occurrences inside loops are the loops' own per-iteration obligations)
+            name = a[0].value
+            es = [e for e in st.trace if e.name == name]
+            return B(z3.Not(z3.Or(*[e.g() for e in es])) if es else z3.BoolVal(True))
         if f in ("effect", "no_effect", "effect_count"):
             name = a[0].value
             if any(name in e.inner for e in st.trace):
